@@ -52,18 +52,20 @@ import numpy as np
 
 from .. import exprs as E
 from .. import gen, pymodel
+from . import losscommon as LC
 from .senscommon import close_arr, fmat, fvec, layout, ref_solve, richardson_dir, subst_params, to_float, worst
 
 PROP = "C20"
 LEAN = {"module": "Pygom.Props.C20",
-        "required": ["Pygom.C20.jtj_entry", "Pygom.C20.jtj_symm", "Pygom.C20.jtj_posSemidef", "Pygom.C20.ff_rhs_entry",
+        "required": ["Pygom.C20.jtj_entry", "Pygom.C20.jtj_symm", "Pygom.C20.jtj_posSemidef", "Pygom.C20.jtj_perm_equivariant",
+                     "Pygom.C20.jtj_weights_not_permuted_counterexample", "Pygom.C20.ff_rhs_entry",
                      "Pygom.C20.ff_rhs_is_true", "Pygom.C20.gjs_entry", "Pygom.C20.odeAndForwardForward_ff_block",
                      "Pygom.C20.ffTrue_is_total_derivative_of_sens_rhs", "Pygom.C20.ff_rhs_terms_independent",
                      "Pygom.C20.ff_asFound_entry", "Pygom.C20.ff_rhs_asFound_partial", "Pygom.C20.ff_rhs_asFound_counterexample",
                      "Pygom.C20.hessianH_entry", "Pygom.C20.hessian_is_second_derivative_partial",
                      "Pygom.C20.hessian_asFound_sign_counterexample"]}
-BUDGET = {"quick": {"catalogue": 12, "additive": 8, "general": 12, "products": 10, "one_state": 2},
-          "thorough": {"catalogue": 120, "additive": 120, "general": 200, "products": 120, "one_state": 12}}
+BUDGET = {"quick": {"catalogue": 12, "additive": 8, "general": 12, "products": 10, "one_state": 2, "select": 144, "timedep": 32},
+          "thorough": {"catalogue": 120, "additive": 120, "general": 200, "products": 120, "one_state": 12, "select": 1440, "timedep": 320}}
 RULE = ("SquareLoss on SIR / SEIR / SIR_norm and on random bounded models (2-4 states, 1-3 free parameters; 'additive' models have "
         "no second derivative involving a parameter: free parameters enter as constant birth rates; 'general' ones multiply parameters "
         "by states, by each other through symbolic magnitudes, and divide by 1+b*Y; 'products' ones always contain a rate a*b*X "
@@ -183,6 +185,117 @@ def _obs_setup(r, states, params, case):
     return case
 
 
+def _perms(names):
+    """the orders of all the names other than the declared one"""
+    return [p for p in LC.all_orders(names) if p != list(names)]
+
+
+def _select_setup(r, j, states, params, case):
+    """SELECTIONS IN EVERY ORDER (round c), systematic in j: observed states = all of them in a non-declared order / a subset of
+    >= 2 in a non-declared order / all in declared order or one; target_param = None / every parameter in a non-declared order /
+    a subset in a non-declared order; weights that DIFFER BETWEEN THE OBSERVED STATES (per state, or per observation and state),
+    with the boundary values 0 and 1 for one state.  The oracle applies the weights, the observations and the sensitivities in
+    the NAMED order."""
+    nS, nP = len(states), len(params)
+    om, tm, wm = j % 3, (j // 3) % 3, (j // 9) % 4
+    k = j // 9
+    if om == 0 or nS == 1:
+        pp = _perms(states)
+        obs = pp[k % len(pp)] if pp else list(states)
+    elif om == 1:
+        if nS >= 3:
+            size = 2 if nS == 3 else r.randint(2, nS - 1)
+            subs = [q for q in LC.all_orders(states, size) if [states.index(x) for x in q] != sorted(states.index(x) for x in q)]
+            obs = subs[k % len(subs)]
+        else:
+            obs = [states[k % nS]]
+    else:
+        obs = list(states) if k % 2 == 0 else [states[(k // 2) % nS]]
+    if tm == 0 or nP == 1:
+        tgt = None
+    elif tm == 1:
+        pp = _perms(params)
+        tgt = pp[k % len(pp)]
+    else:
+        size = r.randint(1, nP - 1) if nP > 2 else 1
+        tgt = sorted(r.sample(params, size), key=params.index, reverse=True)
+    nobs = len(obs)
+    n = r.randint(5, 8)
+    bnd = []
+    if nobs == 1 and r.random() < 0.25:
+        n = 1
+        bnd.append("single-observation-time")
+    if nobs > 1:
+        base = r.sample([0.5, 1.5, 2.0, 3.0], nobs) if nobs <= 4 else [r.choice([0.5, 1.5, 2.0, 3.0]) for _ in obs]
+        z = r.randrange(nobs)
+        if wm == 2:
+            base[z] = 0.0
+            bnd.append("weight-zero-for-one-state")
+        elif wm == 3:
+            base[z] = 1.0
+            bnd.append("weight-one-for-one-state")
+        if wm == 1:
+            wk, w = "full", [[v * r.choice([0.5, 1.0, 1.5, 2.0]) for v in base] for _ in range(n)]
+        else:
+            wk, w = "per_state", base
+    else:
+        wk = ["scalar", "full", "none", "scalar"][wm]
+        w = None if wk == "none" else (r.choice([0.5, 2.0, 3.0]) if wk == "scalar" else [r.choice([0.5, 1.0, 1.5, 2.0]) for _ in range(n)])
+    if r.random() < 0.12:
+        z = r.randrange(nP)
+        case["theta"] = list(case["theta"]); case["theta"][z] = 0.0
+        bnd.append("parameter-exactly-zero")
+    case.update({"obs": obs, "target": tgt, "weights": w, "wkind": wk, "n": n, "noise_seed": r.getrandbits(31), "boundary": bnd,
+                 "select": {"obs": ("all-permuted" if nobs == nS and obs != list(states) else "all-declared" if nobs == nS else
+                                    "one" if nobs == 1 else "subset-permuted"),
+                            "target": "none" if tgt is None else ("all-permuted" if len(tgt) == nP else "subset")}})
+    return case
+
+
+def _td_case_c20(r, name, shape):
+    s = LC.gen_setup_td(r, name=name, shape=shape)
+    return {"kind": "td", "td": s["model"], "states": s["states"], "params": s["params"], "theta": list(s["theta_true"]),
+            "x0": list(s["x0"]), "T": round(float(s["times"][-1]), 3)}
+
+
+def _select_case(r, i):
+    src, j = i % 4, i // 4
+    if src == 0:
+        c = {"kind": "catalogue", "name": "SIR_norm", "states": ["S", "I", "R"], "params": ["beta", "gamma"],
+             "theta": [r.uniform(0.8, 2.0), r.uniform(0.2, 0.6)], "x0": [0.9, 0.1, 0.0], "T": 6.0}
+    elif src == 2:
+        names = [k for k in sorted(LC.TD_CATALOGUE) if len(LC.TD_CATALOGUE[k]["states"]) <= 3 or k == "SIR_constN"]
+        c = _td_case_c20(r, names[j % len(names)], r.choice(sorted(LC.TD_SHAPES)))
+    else:
+        fn = _product_model if src == 1 else _general_model
+        for _ in range(20):
+            spec, states, params = fn(r)
+            if len(states) <= 3:
+                break
+        c = {"kind": "products" if src == 1 else "general", "spec": spec, "states": states, "params": params,
+             "theta": [r.randint(5, 60) / 100.0 for _ in params], "x0": [r.randint(5, 20) / 10.0 for _ in states], "T": r.choice([1.0, 2.0])}
+    _select_setup(r, j, c["states"], c["params"], c)
+    c["family"] = "select"
+    if r.random() < 0.25:
+        _session_setup(r, c)
+    return c
+
+
+def _timedep_case(r, i):
+    names = [k for k in sorted(LC.TD_CATALOGUE) if LC.TD_CATALOGUE[k]["windowed"]]
+    shapes = sorted(LC.TD_SHAPES)
+    name = names[i % len(names)]
+    c = _td_case_c20(r, name, shapes[(i // len(names)) % len(shapes)])
+    _obs_setup(r, c["states"], c["params"], c)
+    wp = LC.TD_CATALOGUE[name]["windowed"]
+    if c["target"] is not None and wp not in c["target"]:
+        c["target"] = c["target"][:-1] + [wp]           # the parameter that acts only during the window is always free
+    c["family"] = "timedep"
+    if r.random() < 0.3:
+        _session_setup(r, c)
+    return c
+
+
 EVAL_FNS = ["jtj", "jtj", "jtj_full", "hessian", "hessian_full"]
 THETA_FORMS = ["list", "tuple", "array", "npscalars", "none"]
 IV_ENTRIES = ["costIV", "costIV", "residualIV", "diff_lossIV", "sensitivityIV"]
@@ -268,6 +381,13 @@ def make_cases(rng, tier, budget):
         c = {"kind": "one_state", "spec": spec, "states": ["X"], "params": ["a", "b"], "theta": [r.randint(20, 60) / 100.0, r.randint(20, 60) / 100.0],
              "x0": [r.randint(5, 20) / 10.0], "T": 2.0}
         cases.append(_session_setup(r, _obs_setup(r, ["X"], ["a", "b"], c)))
+    shift = rng.randrange(1000)          # drawn after everything above: the earlier families are the same as before
+    for i in range(budget.get("select", 0)):
+        r = random.Random(rng.getrandbits(64))
+        cases.append(_select_case(r, i + 4 * shift))
+    for i in range(budget.get("timedep", 0)):
+        r = random.Random(rng.getrandbits(64))
+        cases.append(_timedep_case(r, i + shift))
     return cases
 
 
@@ -338,7 +458,9 @@ class SymOracle:
         self.nS, self.nP = len(xs), len(ps)
         tsym = getattr(model, "_t", sympy.Symbol("t"))
         args = xs + [tsym] + ps
-        d = sympy.diff
+        # one variable at a time: sympy 1.14 gets `diff(S*nu*Max(0, t - c), S, nu)` wrong (returns nu*Max(...)) when asked for both
+        # derivatives in one call with pygom's time symbol (declared real=False); the nested form is right (Max(...))
+        d = lambda e, *vs: (sympy.diff(e, vs[0]) if len(vs) == 1 else sympy.diff(sympy.diff(e, vs[0]), vs[1]))
         mk = lambda rows: sympy.lambdify(args, sympy.Matrix(rows), modules="numpy")
         self.f = mk([[e] for e in ode])
         self.J = mk([[d(e, x) for x in xs] for e in ode])
@@ -375,6 +497,8 @@ class SymOracle:
 
 
 def build_model(case):
+    if case["kind"] == "td":
+        return LC.build_td(case["td"])[0]
     if case["kind"] == "catalogue":
         from pygom import common_models
         from pygom.model import ode_utils
@@ -588,6 +712,24 @@ def run_case(case):
     tags += ["kind:" + case["kind"], "nS=%d" % nS, "nT=%d" % nT, "observed=%d" % p_, "order:" + ("ascending" if asc else "non-ascending"),
              "weights:" + case.get("wkind", "?"),
              "target:" + ("all" if tgt is None else "subset")]
+    if case.get("family"):
+        tags.append("family:" + case["family"])
+    tags += ["boundary:" + b for b in case.get("boundary", [])]
+    if p_ == nS and nS > 1:
+        tags.append("select:all-states-observed:" + ("declared-order" if obs == states else "permuted") + (":target-none" if tgt is None else ""))
+    elif p_ > 1 and oidx != sorted(oidx):
+        tags.append("select:subset-of-states:permuted")
+    if tgt is not None and nT == nP and nP > 1:
+        tags.append("select:target_param-all:" + ("declared-order" if tgt == params else "permuted"))
+    td_rhs, td_brk, tq = None, [], 0.0
+    if case["kind"] == "td":
+        # time-dependent catalogue: the reference flow integrates the HAND-WRITTEN right-hand side piecewise between the
+        # non-smooth time points (losscommon.ref_traj_td); the pointwise check of the second-order system is made at a time
+        # inside the window (where the windowed parameter acts)
+        td_rhs = LC.build_td(case["td"])[1]
+        td_brk = LC.td_breaks(case["td"]["shape"], case["td"]["win"])
+        tq = 0.5 * (case["td"]["win"][0] + case["td"]["win"][1]) if case["td"]["shape"] != LC.TD_AUTONOMOUS else 0.0
+        tags += ["td-model:" + case["td"]["name"], "td-shape:" + case["td"]["shape"]]
 
     sess = case.get("session") or {}
     ops = sess.get("ops", [])
@@ -602,6 +744,8 @@ def run_case(case):
         def flow(th_t):
             th = theta_full.copy(); th[tidx] = th_t
             model.parameters = list(th)
+            if td_rhs is not None:
+                return LC.ref_traj_td(td_rhs, list(th), x0_, 0.0, ts, td_brk, lo=None, hi=1e6)
             return ref_solve(lambda t, yy: np.asarray(model.ode(yy, t), float).ravel(), x0_, 0.0, ts)
 
         th_t = theta_full[tidx].copy()
@@ -828,31 +972,31 @@ def run_case(case):
         xq = z[:nS]
         model.parameters = list(theta)
         Fq = lambda arr, r_, c_: [[Fraction(float(v)) for v in row] for row in np.asarray(arr, float).reshape(r_, c_)]
-        fq = [Fraction(float(v)) for v in np.asarray(model.ode(xq, 0.0), float).ravel()]
-        Jq = Fq(model.jacobian(xq, 0.0), nS, nS)
-        Gq = Fq(model.grad(xq, 0.0), nS, nP)
-        Dq = Fq(model.diff_jacobian(xq, 0.0), nS * nS, nS)
+        fq = [Fraction(float(v)) for v in np.asarray(model.ode(xq, tq), float).ravel()]
+        Jq = Fq(model.jacobian(xq, tq), nS, nS)
+        Gq = Fq(model.grad(xq, tq), nS, nP)
+        Dq = Fq(model.diff_jacobian(xq, tq), nS * nS, nS)
         try:
-            real = np.asarray(model.ode_and_forwardforward(z, 0.0), float).ravel()
+            real = np.asarray(model.ode_and_forwardforward(z, tq), float).ravel()
             if not missing:
-                GJq = Fq(model.grad_jacobian(xq, 0.0), nP * nS, nS)
-                GGq = Fq(model.grad_grad(xq, 0.0), nS * nP, nP)
+                GJq = Fq(model.grad_jacobian(xq, tq), nP * nS, nS)
+                GGq = Fq(model.grad_grad(xq, tq), nS * nP, nP)
                 lo = to_float(layout("odeAndForwardForward", nS=nS, nP=nP, f=fvec(fq), J=fmat(Jq), G=fmat(Gq), DJ=fmat(Dq),
                                      GJ=fmat(GJq), GG=fmat(GGq), z=fvec(zq)))
                 sc = 1.0 + float(np.max(np.abs(lo)))
                 if not close_arr(real, lo, 1e-10, 1e-10 * sc):
                     mism.append({"what": "ode_and_forwardforward vs Lean odeAndForwardForward", "detail": worst(real, lo)})
-                mine = coded_ff_rhs(model, nS, nP, z, 0.0)
+                mine = coded_ff_rhs(model, nS, nP, z, tq)
                 if not close_arr(mine, lo, 1e-10, 1e-10 * sc):
                     mism.append({"what": "harness coded_ff_rhs vs Lean odeAndForwardForward", "detail": worst(mine, lo)})
             # the as-found variant of the harness and of the Lean model agree (it is used for classification below)
             lo_af = to_float(layout("odeAndForwardForwardAsFound", nS=nS, nP=nP, f=fvec(fq), J=fmat(Jq), G=fmat(Gq), DJ=fmat(Dq), z=fvec(zq)))
-            mine_af = coded_ff_rhs(model, nS, nP, z, 0.0, as_found=True)
+            mine_af = coded_ff_rhs(model, nS, nP, z, tq, as_found=True)
             if not close_arr(mine_af, lo_af, 1e-10, 1e-10 * (1.0 + float(np.max(np.abs(lo_af))))):
                 mism.append({"what": "harness coded_ff_rhs(as_found) vs Lean odeAndForwardForwardAsFound", "detail": worst(mine_af, lo_af)})
             # independent oracle: derivatives taken here from get_ode_eqn()
             if sym is not None:
-                orc = sym.rhs(theta, z, 0.0)
+                orc = sym.rhs(theta, z, tq)
                 sco = 1.0 + float(np.max(np.abs(orc)))
                 if not close_arr(real, orc, 1e-9, 1e-9 * sco):
                     if close_arr(real, mine_af, 1e-9, 1e-9 * sco):
